@@ -11,7 +11,7 @@ from pytestarch.eval_structure.evaluable_architecture import ModuleNameFilter, P
 
 from .. import models as M
 from .. import projspace as PS
-from ..drive import Project, scan_outcome, snapshot
+from ..drive import Project, eval_rule, make_evaluable, scan_outcome, snapshot
 
 ID = "C04"
 MOD = __name__
@@ -26,7 +26,8 @@ RULE_TEXT = (
     "scan(root, root); the rendering with imports written relative to module_path's parent gives the same sub-scan; the "
     "module-object entry point equals the path entry point; a rendering with relative from-imports (smallest level that "
     "reaches the target) and a second scan of the unchanged tree, both made after the first scan in the same process, give "
-    "the same architecture; root directory names are drawn from {proj, a, ab, m}, so the root's name may string-prefix or "
+    "the same architecture; 1-3 rules from C01's space give the same verdict and message on the scanned architecture and on one "
+    "built directly from its modules and imports; root directory names are drawn from {proj, a, ab, m}, so the root's name may string-prefix or "
     "equal a package name below it. Non-trivial: module_path != root_path, or a prefix-colliding "
     "sibling pair, or a package without __init__.py."
 )
@@ -161,6 +162,13 @@ def check_case(spec: dict) -> dict:
             v("hierarchy", f"hierarchy edges differ: missing={sorted(want_h - set(hier))} extra={sorted(set(hier) - want_h)}")
         if set(gimps) != imps:
             v("imports/" + ("lost" if imps - set(gimps) else "extra"), f"imports missing={sorted(imps - set(gimps))} extra={sorted(set(gimps) - imps)}")
+        # rules judged on the scanned architecture and on one built directly from the same modules and imports
+        if spec.get("rules") and not viols:
+            direct = make_evaluable(sorted(nodes), sorted(full[1][1]))
+            for rule in spec["rules"]:
+                a, b = eval_rule(rule, full[2]), eval_rule(rule, direct)
+                if a != b and not (a[0] == b[0] == "error"):
+                    v("rule-on-scan-differs-from-rule-on-same-graph", f"rule {rule}: scanned architecture {a}, directly built one {b}")
         # sub-module relation through the public query with a 'sub modules of' filter
         ev = full[2]
         for X in sorted(mods)[:6]:
@@ -216,6 +224,10 @@ def cases(draw):
     tree = draw(PS.with_imports(tree))
     dirs = [""] + tree["dirs"]
     tree["module_path"] = draw(st.sampled_from(dirs)) if draw(st.booleans()) else draw(st.sampled_from(dirs[-2:]))
+    from .. import rulespace as RS
+    mods = sorted(m for m in PS.tree_modules(tree) if all(p.isidentifier() for p in m.split(".")))
+    if len(mods) >= 3:
+        tree["rules"] = [draw(RS.unrelated_rule(mods, max_s=2, max_o=2)) for _ in range(draw(st.integers(1, 3)))]
     return tree
 
 
